@@ -16,3 +16,7 @@ register(Unit(P, "FENCE/S3LockProviderBase.is_held", _c19.h_is_held_s3, function
 
 from contracts import helpers as _HLP  # noqa: E402
 _HLP.register_under("C08", ["HELPER/metadata-file-io"])
+
+# FENCE rests on ownership checks that compare lock identities: identities must be unique per provider instance
+from contracts import C19_locks as _c19  # noqa: E402
+register(Unit(P, "FENCE/lock-identity", _c19.h_lock_identity, functions=[f"{_c19.LP}:S3LockProviderBase.__init__"], replay=_c19._replay_s3lock))
